@@ -35,6 +35,8 @@ def run(F, R, ctx):
     delimiter_agreement_rule(F, R)
     interner_id_rule(F, R)
     counter_width_rule(F, R)
+    printer_fields_rule(F, R)
+    string_token_printer_rule(F, R)
 
 
 def _run(F, R, ctx):
@@ -486,3 +488,76 @@ def counter_width_rule(F, R):
                                fn.short(), e[2], e[3], e[5], e[1], e[6], 255 if e[2] in ("u8", "i8") else 65535),
                            fn.loc(e[3]), sample=n <= 2)
     R.floor("C12.o", "counting additions in the reader", n, 8)
+
+
+PRINTER_FIELD_EXEMPT = {
+    ("LambdaFunction", "kwargs"): "never set from syntax: every constructor of steel-parser stores false (keyword arguments are "
+                                  "recognised later from the argument list itself, which is printed)",
+}
+
+
+def printer_fields_rule(F, R):
+    R.rule("C12.p", "the printer of a syntax node shows everything the parser put into it: for every struct of steel_parser::ast "
+                    "with a Display impl, each field that is not a source location (types RawSyntaxObject / Span) or a node id "
+                    "(u32 syntax_object_id) is read by the impl (callees one level) — type-directed, so a field added tomorrow "
+                    "is covered. nc: a field that changes what the node means and is not printed makes `print, then parse` a "
+                    "different tree — `(lambda (a . b) a)` printed as `(lambda (a b) a)`")
+    n = 0
+    for name, fn in sorted(F.fns.items()):
+        m = re.search(r"^steel_parser::ast::\{impl Display for (\w+)\}::fmt$", name)
+        if not m:
+            continue
+        t = m.group(1)
+        try:
+            adt = F.adt(t)
+        except Exception:
+            continue
+        if not adt or len(adt["variants"]) != 1 or adt.get("kind") == "enum":
+            continue
+        read = set(e[2] for _, e in lib.deep_events(F, fn, "fld", depth=1) if e[1] == t)
+        for f in adt["variants"][0]["fields"]:
+            if re.search(r"RawSyntaxObject|^Span$|SyntaxObjectId", f["ty"]) or f["name"] in ("syntax_object_id",):
+                continue
+            n += 1
+            if (t, f["name"]) in PRINTER_FIELD_EXEMPT:
+                R.inst("C12.p", "Display for %s / %s (allowlisted)" % (t, f["name"]), True,
+                       sample={"reason": PRINTER_FIELD_EXEMPT[(t, f["name"])]}, nontrivial=False)
+                continue
+            R.inst("C12.p", "Display for %s reads %s" % (t, f["name"]), f["name"] in read,
+                   "Display for steel_parser::ast::%s never looks at its field `%s` (%s): two nodes that differ in it print "
+                   "alike, and the printed program parses back as a different tree" % (t, f["name"], f["ty"]), fn.loc(), sample=n <= 3)
+    R.floor("C12.p", "semantic fields of printable syntax nodes", n, 20)
+
+
+def string_token_printer_rule(F, R):
+    R.rule("C12.t", "a string literal token is printed the way the lexer reads it: the StringLiteral arm of Display for TokenType "
+                    "distinguishes (a switch on the character) at least the double quote and the backslash — the two characters "
+                    "that end or escape a string in Lexer::read_string — or hands the text to an escaping formatter "
+                    "(escape_default / escape_debug / {:?}). nc: printed verbatim between quotes, a string containing `\"` or "
+                    "`\\` does not read back (or reads back as a different program)")
+    fns = F.find(r"^steel_parser::tokens::\{impl Display for TokenType<[^}]*\}::fmt$")
+    if not fns:
+        raise CheckError("anchor lost: Display for TokenType")
+    for fn in fns:
+        ok, seen = False, False
+        for sb in lib.enum_switches(fn, "TokenType"):
+            am = lib.arm_map(fn, sb)
+            t = am.get("StringLiteral")
+            if t is None:
+                continue
+            seen = True
+            others = {x for v, x in am.items() if v != "StringLiteral" and x != t}
+            arm = fn.reachable_from([t], avoid={sb} | others)
+            for x in arm:
+                b = fn.blocks[x]
+                if b["k"] == "switch" and b["on"] == "char":
+                    vals = {v for v, _ in b["targets"]}
+                    if {"34", "92"} <= vals:
+                        ok = True
+                if b["k"] == "call" and re.search(r"escape_(default|debug)$|\{impl Debug for str\}::fmt$", b["callee"]):
+                    ok = True
+        if not seen:
+            raise CheckError("anchor lost: no StringLiteral arm in Display for TokenType")
+        R.inst("C12.t", "Display for TokenType / StringLiteral escapes quote and backslash", ok,
+               "Display for TokenType writes a StringLiteral's text verbatim between double quotes: a string that contains a "
+               "double quote or a backslash is printed as something the lexer reads differently (or rejects)", fn.loc(), sample=True)
